@@ -243,6 +243,40 @@ def refused_family(rng, prefix):
     return out
 
 
+def fork_crossing_family(rng, prefix):
+    """chains that CROSS hardfork boundaries: fork heights configured low (V2 at block a, V3 at b, ...),
+    one producer builds every block (child across the boundary, then the next ones: the parent's header
+    is re-derived by the factory and the admission path each time), fresh nodes validate.  Blocks hold
+    transfers, stakes, ballots and contract calls so that version-dependent paths run on both sides."""
+    out = []
+    layouts = [{"2": 3, "3": 5}, {"2": 2, "3": 3, "4": 4}, {"2": 1, "3": 4, "4": 6, "5": 7}, {"2": 4}, {"2": 0, "3": 0, "4": 3, "5": 5}]
+    for li, fh in enumerate(layouts):
+        cs = [G.cand(80 + i).hex() for i in range(2)]
+        blocks, nonce = [], {i: 0 for i in range(5)}
+
+        def tx(i, t):
+            nonce[i] += 1
+            t.update({"from": i, "nonce": nonce[i]})
+            return t
+        for b in range(1, 9):
+            txs = [tx(0, {"kind": "transfer", "to": 1, "amt": str(b)})]
+            if b == 1:
+                txs.append(tx(1, {"kind": "deploy", "payload": "ok|100|a=b|deployed"}))
+                txs.append(tx(2, {"kind": "stake", "amt": str(S)}))
+            elif b == 2:
+                txs.append(tx(2, {"kind": "votebp", "cands": cs}))
+            else:
+                txs.append(tx(3, {"kind": "call", "ctr": [1, 1], "payload": rng.choice(["ok|7|k%d=v|set" % b, "rt|9"])}))
+                if b == 4:
+                    txs.append(tx(3, {"kind": "stake", "amt": str(2 * S)}))
+                if b == 6:
+                    txs.append(tx(3, {"kind": "votebp", "cands": [cs[0]]}))
+            blocks.append({"ts": 1000 * b, "txs": txs})
+        out.append({"id": "%s-%d" % (prefix, li), "ver": 0, "fork_heights": fh, "naccts": 5, "bal": str(BAL), "coinbase": 4,
+                    "public": li % 2 == 0, "blocks": blocks, "_fork": True})
+    return out
+
+
 def deadline_family(rng, prefix, ver=None, public=None):
     """the block-generation deadline (the context GatherTXs consults in checkBGTimeout) expires at
     every position of the candidate list of one block: already expired when gathering starts (-1)
@@ -306,6 +340,8 @@ def chain_case_to_coq(case, prod, fixed=True):
     case cannot be replayed by the governance model (a BP vote already in block 1: the genesis
     ranking is read from the state after block 1)."""
     import hashlib
+    if case.get("fork_heights"):
+        return None          # the replay uses one fork version per case (cross-fork histories are C15's gov engine)
     for blk in case["blocks"]:
         for t in blk["txs"]:
             if any(not all(ch in "0123456789abcdef" for ch in c) for c in t.get("cands", [])):
